@@ -107,6 +107,43 @@ def run(ctx, R, tier):
             R.add("C15-R3", o.key.split("|", 1)[1], o.desc + " (lookup and count take no lock: a second commit inside one operation would be visible to them as a state no "
                   "sequential order explains)", o.ok, o.loc, o.detail)
 
+    # lock-free readers: the storage method they use must read one snapshot (a single statement, or an explicit transaction around several)
+    sql = p.cls("Pyro5.nameserver.SqlStorage")
+    n_free = 0
+    for name, m in sorted(methods.items()):
+        for a in storage_accesses(ctx, m, set()):
+            if any(dotted(it.context_expr) == LOCK for w in enclosing_withs(a) for it in w.items):
+                continue
+            par = getattr(a, "_parent", None)
+            sm = None
+            if isinstance(par, ast.Subscript) and isinstance(par.ctx, ast.Load):
+                sm = "__getitem__"
+            elif isinstance(par, ast.Call) and isinstance(par.func, ast.Name) and par.func.id == "len":
+                sm = "__len__"
+            elif isinstance(par, ast.Compare):
+                sm = "__contains__"
+            elif isinstance(par, ast.Attribute) and isinstance(getattr(par, "_parent", None), ast.Call):
+                sm = par.attr
+            if sm is None or sm not in sql.methods:
+                continue
+            g = sql.methods[sm]
+            n_free += 1
+            ex = [c for c in walk_no_nested(g.node) if isinstance(c, ast.Call) and isinstance(c.func, ast.Attribute) and c.func.attr == "execute" and c.args]
+            def text(c):
+                okc, v = ctx.const(c.args[0], g)
+                return v.strip().upper() if okc and isinstance(v, str) else "?"
+            selects = [c for c in ex if text(c).startswith("SELECT") or text(c) == "?"]
+            begins = [c for c in ex if text(c).startswith("BEGIN")]
+            gcfg = ctx.cfg(g)
+            ok = len(selects) <= 1 or (bool(begins) and all(any(gcfg.dominates(b, x) and b is not x for bc in begins for b in ctx.node_of(g, bc))
+                                                            for c in selects for x in ctx.node_of(g, c)))
+            R.check(ok, "C15-R3", "lock-free:NameServer.%s->SqlStorage.%s|one-snapshot" % (name, sm),
+                    "%s() takes no lock, so the storage method it uses reads a single snapshot (one statement, or BEGIN before the first of several)" % name, g.loc(),
+                    "SqlStorage.%s runs %d SELECTs outside any transaction and NameServer.%s calls it without the lock: a registration committed in between makes it "
+                    "return a (uri, metadata) pair that was never registered" % (sm, len(selects), name))
+    if n_free < 2:
+        raise AnalysisError("NameServer: the lock-free readers (lookup, count) vanished (%d)" % n_free)
+
     # ---------------------------------------------------------------- R2
     init = ns.methods.get("__init__")
     if init is None:
